@@ -178,6 +178,19 @@ def extract(repo):
     else:
         raise ValueError("the MakeRedefined( … ) call exp2cxx prints is not recognised")
 
+    # ---- SelectTypeDescriptor::CanBe( const TypeDescriptor * ): every element is asked in turn, a select element like any other
+    sd = _strip_comments(rd("src/clstepcore/selectTypeDescriptor.cc"))
+    cb = re.sub(r"\s+", "", _body(sd, r"const\s+TypeDescriptor\s*\*\s*SelectTypeDescriptor::CanBe\s*\(\s*const\s+TypeDescriptor\s*\*\s*other\s*\)\s*const\s*\{"))
+    if cb == ("{if(this==other){returnother;}TypeDescItrelements(GetElements());constTypeDescriptor*td=elements.NextTypeDesc();"
+              "while(td){if(td->CanBe(other)){returntd;}td=elements.NextTypeDesc();}return0;}"):
+        canbe_rec = "true"
+    elif "NonRefType()==SELECT_TYPE" in cb and "td==other" in cb:
+        canbe_rec = "false"
+    else:
+        raise ValueError("SelectTypeDescriptor::CanBe( const TypeDescriptor * ): loop over the elements not recognised")
+    ed = rd("include/clstepcore/entityDescriptor.h")
+    if not re.search(r"CanBe\(\s*const\s+TypeDescriptor\s*\*\s*o\s*\)\s*const\s*\{\s*return\s+o\s*->\s*IsA\(\s*this\s*\)\s*;", ed):
+        raise ValueError("EntityDescriptor::CanBe( const TypeDescriptor * ) is no longer `o->IsA( this )`")
     # ---- identifier length exp2cxx accepts, and the buffers ClassName / PrettyTmpName write into
     cw = rd("src/exp2cxx/classes_wrapper.cc")
     mm = re.search(r"#define\s+MAX_IDENT_LEN\s+\(\s*MAX_LEN\s*-\s*(\d+)\s*\)", cw)
@@ -240,6 +253,10 @@ def nonRefLinkBound : Option Nat := {link_bound}
 
 /-- `LITERAL_INFINITY->u.integer` -/
 def literalInfinity : Int := {inf}
+
+/-- `SelectTypeDescriptor::CanBe( const TypeDescriptor * )` asks every element whether it can be the argument, an element that is
+    itself a select included (true); false: a select element only matches when it IS the argument -/
+def selectCanBeRecurses : Bool := {canbe_rec}
 
 /-- classes_wrapper.cc `MAX_IDENT_LEN`: exp2cxx refuses, with a diagnostic and a failure status, a schema with a longer identifier -/
 def maxIdentLen : Nat := {max_ident}
